@@ -12,12 +12,14 @@
 #include "vh.h"
 #include "venv.h"
 #include "tlsh.h"
+#include "der.h"
 
-enum { A_NONE, A_OMIT, A_EMPTY_CERT, A_ALTER };
+enum { A_NONE, A_OMIT, A_EMPTY_CERT, A_ALTER, A_LONG_CERT };
 typedef struct { int puppet /* vnet task id: 0 client, 1 server */, k, action, off, val, wrongkey; } plan_t; static plan_t PLAN = { -1, -1, A_NONE, 0, 0, 0 };
-typedef struct { int status, c_hs, s_hs, nsend[2]; struct { uint8_t rtype, hstype; uint16_t len; } snd[2][24]; } out_t; static out_t *XO;
+typedef struct { int status, c_hs, s_hs, c_cfg, s_cfg, nsend[2]; struct { uint8_t rtype, hstype; uint16_t len; } snd[2][24]; } out_t; static out_t *XO;
 /* per-thread filter state */
 static __thread int T_NSEND; static __thread const uint8_t *T_SKIP_PTR; static __thread size_t T_SKIP_LEN; static __thread int T_SKIP_NEXT_DIGEST, T_SKIP_NEXT_SEQ, T_CCS_SENT, T_LEARN_IDX = -1; static __thread uint8_t T_REP[16]; static __thread int T_SUBST; static __thread uint8_t T_ALT[20000]; static __thread size_t T_ALTLEN; static __thread int T_ALT13;
+static uint8_t FILL[1400]; static size_t FILLLEN; /* certificate appended PLAN.val times to the puppet's certificate list (A_LONG_CERT) */ static __thread uint8_t T_BIG[16400]; static __thread size_t T_BIGLEN;
 static const uint8_t SUBV[7] = { 0x00, 0x01, 0x7f, 0x80, 0x81, 0xfe, 0xff }; static uint8_t subst(uint8_t o, int k) { return k < 7 ? SUBV[k] : (k == 7 ? o ^ 0x01 : o ^ 0x80); }
 int __real_tls_record_send(const uint8_t *record, size_t recordlen, tls_socket_t sock); void __real_sm3_update(SM3_CTX *c, const uint8_t *d, size_t n); int __real_digest_update(DIGEST_CTX *c, const uint8_t *d, size_t n); int __real_tls_seq_num_incr(uint8_t seq[8]);
 int __wrap_tls_record_send(const uint8_t *record, size_t recordlen, tls_socket_t sock) {
@@ -27,9 +29,11 @@ int __wrap_tls_record_send(const uint8_t *record, size_t recordlen, tls_socket_t
 	if (me == PLAN.puppet && idx == PLAN.k) {
 		if (PLAN.action == A_OMIT) { if (plain_hs) { T_SKIP_PTR = record + 5; T_SKIP_LEN = recordlen - 5; } else if (record[0] == 23) { T_SKIP_NEXT_DIGEST = 1; T_SKIP_NEXT_SEQ = 1; } return 1; }
 		if (PLAN.action == A_ALTER && plain_hs && recordlen <= sizeof T_ALT && (size_t)(9 + PLAN.off) < recordlen) { memcpy(T_ALT, record, recordlen); T_ALT[9 + PLAN.off] = subst(T_ALT[9 + PLAN.off], PLAN.val); T_ALTLEN = recordlen; T_SKIP_PTR = record + 5; T_SKIP_LEN = recordlen - 5; T_SUBST = 2; return __real_tls_record_send(T_ALT, recordlen, sock); }
+		if (PLAN.action == A_LONG_CERT && plain_hs && record[5] == 11 && recordlen >= 12) { /* own list + PLAN.val filler entries, lengths recomputed, hashed consistently */ size_t ll = ((size_t)record[9] << 16) | ((size_t)record[10] << 8) | record[11]; size_t nl = ll + (size_t)PLAN.val * (3 + FILLLEN); if (12 + nl <= sizeof T_BIG && 12 + ll <= recordlen) { memcpy(T_BIG, record, 12 + ll); size_t o = 12 + ll; for (int i = 0; i < PLAN.val; i++) { T_BIG[o++] = (uint8_t)(FILLLEN >> 16); T_BIG[o++] = (uint8_t)(FILLLEN >> 8); T_BIG[o++] = (uint8_t)FILLLEN; memcpy(T_BIG + o, FILL, FILLLEN); o += FILLLEN; }
+			size_t hl = nl + 3, rl = hl + 4; T_BIG[3] = (uint8_t)(rl >> 8); T_BIG[4] = (uint8_t)rl; T_BIG[6] = (uint8_t)(hl >> 16); T_BIG[7] = (uint8_t)(hl >> 8); T_BIG[8] = (uint8_t)hl; T_BIG[9] = (uint8_t)(nl >> 16); T_BIG[10] = (uint8_t)(nl >> 8); T_BIG[11] = (uint8_t)nl; T_BIGLEN = o; T_SKIP_PTR = record + 5; T_SKIP_LEN = recordlen - 5; T_SUBST = 3; return __real_tls_record_send(T_BIG, o, sock); } }
 		if (PLAN.action == A_EMPTY_CERT && plain_hs && record[5] == 11) { uint8_t rep[12] = { 22, record[1], record[2], 0, 7, 11, 0, 0, 3, 0, 0, 0 }; memcpy(T_REP, rep, 12); T_SKIP_PTR = record + 5; T_SKIP_LEN = recordlen - 5; T_SUBST = 1; return __real_tls_record_send(T_REP, 12, sock); } }
 	return __real_tls_record_send(record, recordlen, sock); }
-void __wrap_sm3_update(SM3_CTX *c, const uint8_t *d, size_t n) { if (T_SKIP_PTR && d == T_SKIP_PTR && n == T_SKIP_LEN && vn_me >= 0) { if (T_SUBST == 1) __real_sm3_update(c, T_REP + 5, 7); else if (T_SUBST == 2) __real_sm3_update(c, T_ALT + 5, T_ALTLEN - 5); return; } __real_sm3_update(c, d, n); }
+void __wrap_sm3_update(SM3_CTX *c, const uint8_t *d, size_t n) { if (T_SKIP_PTR && d == T_SKIP_PTR && n == T_SKIP_LEN && vn_me >= 0) { if (T_SUBST == 1) __real_sm3_update(c, T_REP + 5, 7); else if (T_SUBST == 2) __real_sm3_update(c, T_ALT + 5, T_ALTLEN - 5); else if (T_SUBST == 3) __real_sm3_update(c, T_BIG + 5, T_BIGLEN - 5); return; } __real_sm3_update(c, d, n); }
 int __real_sm4_gcm_encrypt(const SM4_KEY *key, const uint8_t *iv, size_t ivlen, const uint8_t *aad, size_t aadlen, const uint8_t *in, size_t inlen, uint8_t *out, size_t taglen, uint8_t *tag);
 int __wrap_sm4_gcm_encrypt(const SM4_KEY *key, const uint8_t *iv, size_t ivlen, const uint8_t *aad, size_t aadlen, const uint8_t *in, size_t inlen, uint8_t *out, size_t taglen, uint8_t *tag) {
 	if (vn_me >= 0 && vn_active && vn_me == PLAN.puppet && PLAN.action == A_ALTER && T_NSEND == PLAN.k && inlen <= sizeof T_ALT && (size_t)(4 + PLAN.off) < inlen) { memcpy(T_ALT, in, inlen); T_ALT[4 + PLAN.off] = subst(T_ALT[4 + PLAN.off], PLAN.val); T_ALT13 = 1; return __real_sm4_gcm_encrypt(key, iv, ivlen, aad, aadlen, T_ALT, inlen, out, taglen, tag); }
@@ -37,12 +41,12 @@ int __wrap_sm4_gcm_encrypt(const SM4_KEY *key, const uint8_t *iv, size_t ivlen, 
 int __wrap_digest_update(DIGEST_CTX *c, const uint8_t *d, size_t n) { if (vn_me >= 0 && vn_active) { if (T_ALT13 && vn_me == PLAN.puppet && n <= sizeof T_ALT && (size_t)(4 + PLAN.off) < n) { T_ALT13 = 0; static __thread uint8_t cp[20000]; memcpy(cp, d, n); cp[4 + PLAN.off] = subst(cp[4 + PLAN.off], PLAN.val); return __real_digest_update(c, cp, n); } if (T_LEARN_IDX >= 0 && T_LEARN_IDX < 24 && n >= 4) { XO->snd[vn_me][T_LEARN_IDX].hstype = d[0]; T_LEARN_IDX = -1; } if (T_SKIP_NEXT_DIGEST) { T_SKIP_NEXT_DIGEST = 0; return 1; } } return __real_digest_update(c, d, n); }
 int __wrap_tls_seq_num_incr(uint8_t seq[8]) { if (vn_me >= 0 && vn_active && T_SKIP_NEXT_SEQ) { T_SKIP_NEXT_SEQ = 0; return 1; } return __real_tls_seq_num_incr(seq); }
 
-static side_creds SRV[3], CLI[3], SRVW[3], CLIW[3]; /* ...W: the prover's chain is genuine but it signs with an unrelated key */ static char FAIL[32];
+static side_creds SRV[3], CLI[3], SRVW[3], CLIW[3], SRVU[3], CLIU[3]; /* ...U: a chain under an untrusted root */ /* ...W: the prover's chain is genuine but it signs with an unrelated key */ static char FAIL[32];
 static void run_exec(int proto, int who /* 0: client verifies the (puppet) server, 1: server verifies the (puppet) client */) {
 	memset(XO, 0, sizeof *XO); FAIL[0] = 0; fflush(stdout); pid_t pid = fork(); if (pid < 0) vh_harness_error("fork");
 	if (pid == 0) { if (!freopen("/dev/null", "w", stderr) || !freopen("/dev/null", "w", stdout)) {} alarm(30); static ep_t c, s; memset(&c, 0, sizeof c); memset(&s, 0, sizeof s);
-		c.proto = s.proto = proto; c.is_client = 1; c.mutual = s.mutual = (who == 1); c.own = (PLAN.wrongkey && who == 1) ? &CLIW[proto] : &CLI[proto]; s.own = (PLAN.wrongkey && who == 0) ? &SRVW[proto] : &SRV[proto]; c.trust = &SRV[proto]; s.trust = who == 1 ? &CLI[proto] : NULL; c.entropy_key = 0xC11E17; s.entropy_key = 0x5E12BE12; c.entropy_fail_at = s.entropy_fail_at = -1;
-		int cr, sr; XO->status = vnet_run2(ep_task, &c, ep_task, &s, &cr, &sr); XO->c_hs = c.hs_ret; XO->s_hs = s.hs_ret; _exit(0); }
+		c.proto = s.proto = proto; c.is_client = 1; c.mutual = s.mutual = (who == 1); c.own = (PLAN.wrongkey == 2 && who == 1) ? &CLIU[proto] : (PLAN.wrongkey && who == 1) ? &CLIW[proto] : &CLI[proto]; s.own = (PLAN.wrongkey == 2 && who == 0) ? &SRVU[proto] : (PLAN.wrongkey && who == 0) ? &SRVW[proto] : &SRV[proto]; c.trust = &SRV[proto]; s.trust = who == 1 ? &CLI[proto] : NULL; c.entropy_key = 0xC11E17; s.entropy_key = 0x5E12BE12; c.entropy_fail_at = s.entropy_fail_at = -1;
+		int cr, sr; XO->status = vnet_run2(ep_task, &c, ep_task, &s, &cr, &sr); XO->c_hs = c.hs_ret; XO->s_hs = s.hs_ret; XO->c_cfg = c.config_altered; XO->s_cfg = s.config_altered; _exit(0); }
 	int st; while (waitpid(pid, &st, 0) < 0 && errno == EINTR) {} if (!WIFEXITED(st) || WEXITSTATUS(st)) snprintf(FAIL, sizeof FAIL, "%s", WIFSIGNALED(st) ? (WTERMSIG(st) == SIGALRM ? "hang" : "crash") : "abnormal-exit"); }
 static const char *hsname(int t) { switch (t) { case 1: return "ClientHello"; case 2: return "ServerHello"; case 8: return "EncryptedExtensions"; case 11: return "Certificate"; case 12: return "ServerKeyExchange"; case 13: return "CertificateRequest"; case 14: return "ServerHelloDone"; case 15: return "CertificateVerify"; case 16: return "ClientKeyExchange"; case 20: return "Finished"; default: return "other"; } }
 static uint64_t NEXEC;
@@ -59,6 +63,19 @@ static void body(void) {
 			if (verifier_done && relevant) { snprintf(key, sizeof key, "C09:%s:%s-%s:verifier-completed", bn, mn, an); vh_viol(key, "\"message_index\":%d,\"c_hs\":%d,\"s_hs\":%d", k, XO->c_hs, XO->s_hs); }
 			else if (verifier_done) vh_obs("%s: verifier completes although the prover left out %s (not an authentication message)", bn, mn);
 			vh_sample("{\"block\":\"%s\",\"message\":\"%s\",\"action\":\"%s\",\"verifier_completed\":%d,\"prover_completed\":%d}", bn, mn, an, verifier_done, who ? XO->c_hs == 1 : XO->s_hs == 1); } }
+	/* a prover whose chain hangs under an UNTRUSTED root and whose Certificate message carries more than the verifier's certificate store can hold (2048 octets):
+	   its own list followed by 2..12 further entries (its own leaf again / the verifier's trusted root / its rogue root). Whatever the verifier does with the surplus,
+	   it must not complete, crash or hang. (TLCP / TLS 1.2: the message is in the clear; the TLS 1.3 message is covered by the stream mutations of C06.) */
+	for (int p = 0; p < 3; p++) for (int who = 0; who < 2; who++) { if (p == P_TLS13) continue; char bn[80]; snprintf(bn, sizeof bn, "oversized-chain-%s-%s-verifies-%s", PNAME[p], who ? "server" : "client", who ? "client" : "server"); if (!vh_block_begin(bn)) continue; int pup = who ? 0 : 1;
+		PLAN = (plan_t){ -1, -1, A_NONE, 0, 0, 0 }; run_exec(p, who); NEXEC++; out_t base = *XO; if (FAIL[0] || base.c_hs != 1 || base.s_hs != 1) continue;
+		for (int k = 0; k < base.nsend[pup]; k++) { if (base.snd[pup][k].hstype != 11 || base.snd[pup][k].rtype != 22) continue;
+			for (int ft = 0; ft < 3; ft++) for (int nf = 2; nf <= 12; nf++) { if (!vh_next()) continue; const side_creds *pu = who ? &CLIU[p] : &SRVU[p]; const uint8_t *src = ft == 1 ? SRV[p].cacerts : pu->certs; size_t sl = ft == 1 ? SRV[p].cacertslen : pu->certslen; /* first certificate of the source; ft 2: the LAST certificate of the puppet's chain */
+				der_cur c = { src, sl }; int tag; const uint8_t *v; size_t vl, h; const uint8_t *st = c.p; size_t one = 0; while (c.n) { st = c.p; if (!der_tlv(&c, &tag, &v, &vl, &h)) break; one = h + vl; if (ft != 2) break; } if (!one || one > sizeof FILL) vh_harness_error("filler certificate"); memcpy(FILL, st, one); FILLLEN = one;
+				PLAN = (plan_t){ pup, k, A_LONG_CERT, ft, nf, 2 }; run_exec(p, who); NEXEC++; int verifier_done = who ? XO->s_hs == 1 : XO->c_hs == 1; size_t kk[5] = { (size_t)p, (size_t)who, (size_t)k, (size_t)ft, (size_t)nf }; vh_eval(vh_hash(kk, sizeof kk, 9)); char key[200]; static const char *FT[] = { "own-leaf", "verifiers-trusted-root", "own-rogue-root" };
+				if (FAIL[0]) { snprintf(key, sizeof key, "C09:%s:%s", bn, FAIL); vh_viol(key, "\"filler\":\"%s\",\"extra_entries\":%d,\"entry_len\":%zu", FT[ft], nf, one); continue; }
+				{ int cfg = who ? XO->s_cfg : XO->c_cfg; if (cfg) { snprintf(key, sizeof key, "C09:%s:peer-message-altered-the-verifiers-%s", bn, (cfg & 1) ? "trust-anchors" : (cfg & 2) ? "own-certificate-chain" : "own-keys"); vh_viol(key, "\"filler\":\"%s\",\"extra_entries\":%d,\"entry_len\":%zu,\"altered_mask\":%d", FT[ft], nf, one, cfg); } }
+				if (verifier_done) { snprintf(key, sizeof key, "C09:%s:verifier-completed", bn); vh_viol(key, "\"filler\":\"%s\",\"extra_entries\":%d,\"entry_len\":%zu,\"c_hs\":%d,\"s_hs\":%d", FT[ft], nf, one, XO->c_hs, XO->s_hs); }
+				vh_sample("{\"block\":\"%s\",\"filler\":\"%s\",\"extra_entries\":%d,\"verifier_completed\":%d}", bn, FT[ft], nf, verifier_done); } } }
 	/* a prover WITHOUT the private key (genuine chain, signatures made with an unrelated key) that in addition alters one byte of the header
 	   fields of its signed message (CertificateVerify / ServerKeyExchange: algorithm identifiers, lengths, first signature bytes) consistently:
 	   whatever it writes there, the verifier must not complete */
@@ -70,4 +87,4 @@ static void body(void) {
 				if (verifier_done) { snprintf(key, sizeof key, "C09:%s:%s-signed-with-unrelated-key%s:verifier-completed", bn, hsname(ht), off < 0 ? "" : "-and-header-byte-altered"); vh_viol(key, "\"offset\":%d,\"value_index\":%d,\"c_hs\":%d,\"s_hs\":%d", off, v, XO->c_hs, XO->s_hs); } } } }
 	printf("STAT states=%llu transitions=%llu executions=%llu\n", (unsigned long long)NEXEC, (unsigned long long)NEXEC * 2, (unsigned long long)NEXEC);
 }
-int main(int argc, char **argv) { vh_init(argc, argv); app_fill(); XO = mmap(NULL, sizeof *XO, PROT_READ | PROT_WRITE, MAP_SHARED | MAP_ANONYMOUS, -1, 0); cred_defects wk; memset(&wk, 0, sizeof wk); wk.wrong_signkey = 1; for (int p = 0; p < 3; p++) if (build_side(&SRV[p], p, 0, 1, NULL) != 1 || build_side(&CLI[p], p, 1, 1, NULL) != 1 || build_side(&SRVW[p], p, 0, 1, &wk) != 1 || build_side(&CLIW[p], p, 1, 1, &wk) != 1) vh_harness_error("creds"); body(); return vh_finish(); }
+int main(int argc, char **argv) { vh_init(argc, argv); app_fill(); XO = mmap(NULL, sizeof *XO, PROT_READ | PROT_WRITE, MAP_SHARED | MAP_ANONYMOUS, -1, 0); cred_defects wk; memset(&wk, 0, sizeof wk); wk.wrong_signkey = 1; for (int p = 0; p < 3; p++) if (build_side(&SRV[p], p, 0, 1, NULL) != 1 || build_side(&CLI[p], p, 1, 1, NULL) != 1 || build_side(&SRVW[p], p, 0, 1, &wk) != 1 || build_side(&CLIW[p], p, 1, 1, &wk) != 1) vh_harness_error("creds"); { cred_defects ur; memset(&ur, 0, sizeof ur); ur.untrusted_root = 1; for (int p = 0; p < 3; p++) if (build_side(&SRVU[p], p, 0, 2, &ur) != 1 || build_side(&CLIU[p], p, 1, 2, &ur) != 1) vh_harness_error("creds-u"); } body(); return vh_finish(); }
